@@ -64,7 +64,8 @@ NormAcc(T, acc) == IF T > 2 ^ NQ - 1 THEN acc ELSE NormAcc(T + 1, QAdd(acc, Abs2
 Weight == NormAcc(0, Q0)
 (* unitary gates preserve the norm; projections lower it: the weight of an outcome history is at most one *)
 NormOneBeforeMeasurement == outs = <<>> => QEq(Weight, Q1)
-WeightIsProbability == QIsReal(Weight) /\ Weight.n[2] = 0 /\ Weight.n[1] >= 0 /\ Weight.n[1] <= Weight.d
+(* 0 <= (a + b sqrt2) / d <= 1  (weights of circuits with pi/4 phases contain sqrt2) *)
+WeightIsProbability == QIsReal(Weight) /\ SNonNeg(Weight.n[1], Weight.n[2]) /\ SNonNeg(Weight.d - Weight.n[1], -Weight.n[2])
 Done == Cardinality(measured) = NQ
 ExportEnd == (Export /\ Done) => PrintT(<<"QUBIT", ToJson([circ |-> circ, outs |-> outs, w |-> Weight])>>)
 =============================================================================
